@@ -54,10 +54,15 @@ def run_script(root, script_text, iter_log=True, timeout=120, flavour="asan"):
         made = m.group(1)
         os.makedirs(made)
     try:
-        p = subprocess.run([exe], input=b"CASE s %d\n" % len(payload) + payload, stdout=subprocess.PIPE,
-                           stderr=subprocess.PIPE, timeout=timeout, env=env)
+        try:
+            p = subprocess.run([exe], input=b"CASE s %d\n" % len(payload) + payload, stdout=subprocess.PIPE,
+                               stderr=subprocess.PIPE, timeout=timeout, env=env)
+        except subprocess.TimeoutExpired:
+            # a loaded machine is not a hanging daemon: once more, with three times the patience
+            p = subprocess.run([exe], input=b"CASE s %d\n" % len(payload) + payload, stdout=subprocess.PIPE,
+                               stderr=subprocess.PIPE, timeout=3 * timeout, env=env)
     except subprocess.TimeoutExpired as e:
-        return None, (e.stdout or b"").decode("latin1"), "TIMEOUT", -9
+        return None, (e.stdout or b"").decode("latin1"), "TIMEOUT (twice, the second time with %d s)" % (3 * timeout), -9
     finally:
         if made:
             shutil.rmtree(made, ignore_errors=True)
